@@ -390,16 +390,16 @@ def single_expansion(ctx, rep, clause):
                 changed = True
     k = 0
     cx = Canon(f.node)
-    for n in sorted((x for x in walk_own(f.node) if isinstance(x, ast.Call)), key=lambda x: x.lineno):
+    for n in sorted((x for x in walk_own(f.node) if isinstance(x, ast.Call)), key=lambda x: x.order):
         if isinstance(n, ast.Call) and isinstance(n.func, ast.Name) and n.func.id == builder and n.args:
             k += 1
             # a name bound more than once means what its nearest preceding binding gave it
             arg = n.args[0]
             if isinstance(arg, ast.Name):
                 binds = [a for a in walk_own(f.node) if isinstance(a, ast.Assign) and isinstance(a.targets[0], ast.Name)
-                         and a.targets[0].id == arg.id and a.lineno < n.lineno]
+                         and a.targets[0].id == arg.id and a.order < n.order]
                 if binds:
-                    arg = max(binds, key=lambda a: a.lineno).value
+                    arg = max(binds, key=lambda a: a.order).value
             again = sorted({x.id for x in ast.walk(arg) if isinstance(x, ast.Name) and x.id in tainted} |
                            ({builder} if has_builder(arg) else set()))
             kwnames = {kw.arg for c_ in ast.walk(arg) if isinstance(c_, ast.Call) for kw in c_.keywords}
